@@ -1,9 +1,139 @@
+/-
+  Driver for sumdb/note (prefix `note.`).  Decode, call the model, encode.
+  Keys are STUBS described by tokens so that both sides agree without Ed25519:
+    verifier spec  `<hexname>.<hash>.<beh>`  beh: a = accept all, r = reject all, f = accept iff sig == stubSig name msg
+    signer spec    `<hexname>.<hash>.<beh>`  beh: f = stubSig name msg, e = error, z = empty signature, k = constant [1,2,3]
+    signature      `<hexname>.<hash>.<hexbase64>`
+  lists are comma separated, `_` = empty.  known mode: L = VerifierList, N = nil (= empty list),
+  E = every lookup fails with some other error, M = every lookup returns the first listed verifier.
+-/
 import ModVerif.Drv.Util
+import ModVerif.Model.Note
+import ModVerif.Basic.Sha256
 namespace ModVerif.Drv.Note
-open ModVerif ModVerif.Drv
+open ModVerif ModVerif.Drv ModVerif.Note
 
-/-- stub: no ops modelled yet -/
+/-- the stub signature function shared with harness/cmd/corr/c07.go -/
+def stubSig (name msg : Bytes) : Bytes :=
+  let h := (name ++ [0] ++ msg).foldl (fun (h : Nat) (b : UInt8) => (h * 131 + b.toNat + 1) % 4294967296) 7
+  putU32 (UInt32.ofNat h) ++ [UInt8.ofNat (msg.length % 256)]
+
+def splitList (s : String) : List String := if s == "_" then [] else s.splitOn ","
+
+def parseU32 (s : String) : Option UInt32 := do
+  let n ← s.toNat?
+  if n < 4294967296 then some (UInt32.ofNat n) else none
+
+def verifierSpec (s : String) : Option (Verifier × String) :=
+  match s.splitOn "." with
+  | [n, h, b] => do
+    let name ← hx n
+    let hash ← parseU32 h
+    let f ← match b with
+      | "a" => some fun (_ _ : Bytes) => true
+      | "r" => some fun (_ _ : Bytes) => false
+      | "f" => some fun (msg sig : Bytes) => sig == stubSig name msg
+      | _ => none
+    pure ({ name := name, hash := hash, verify := f }, s)
+  | _ => none
+
+def signerSpec (s : String) : Option Signer :=
+  match s.splitOn "." with
+  | [n, h, b] => do
+    let name ← hx n
+    let hash ← parseU32 h
+    let f ← match b with
+      | "f" => some fun (msg : Bytes) => some (stubSig name msg)
+      | "e" => some fun (_ : Bytes) => (none : Option Bytes)
+      | "z" => some fun (_ : Bytes) => some []
+      | "k" => some fun (_ : Bytes) => some [1, 2, 3]
+      | _ => none
+    pure { name := name, hash := hash, sign := f }
+  | _ => none
+
+def sigSpec (s : String) : Option Signature :=
+  match s.splitOn "." with
+  | [n, h, b] => do
+    let name ← hx n
+    let hash ← parseU32 h
+    let b64 ← hx b
+    pure ⟨name, hash, b64⟩
+  | _ => none
+
+def showSig (s : Signature) : String := s!"{xh s.name}.{s.hash.toNat}.{xh s.base64}"
+
+def showSigs (l : List Signature) : String :=
+  if l.isEmpty then "_" else ",".intercalate (l.map showSig)
+
+def knownOf (mode : String) (vs : List Verifier) : Option Verifiers :=
+  match mode with
+  | "L" => some (VerifierList vs)
+  | "N" => some (VerifierList [])
+  | "E" => some fun _ _ => .otherErr
+  | "M" => some fun _ _ => match vs with | [] => .unknown | v :: _ => .found v
+  | _ => none
+
+def showOpen : Except OpenErr Note → String
+  | .ok n => s!"ok {xh n.text} {showSigs n.sigs} {showSigs n.unverifiedSigs}"
+  | .error .malformed => "err:malformed"
+  | .error (.unverified n) => s!"err:unverified {xh n.text} {showSigs n.unverifiedSigs}"
+  | .error (.invalidSignature name hash) => s!"err:invalidsig {xh name} {hash.toNat}"
+  | .error (.ambiguous name hash) => s!"err:ambiguous {xh name} {hash.toNat}"
+  | .error .mismatchedVerifier => "err:mismatch"
+  | .error .other => "err:other"
+
+def showKeyErr : KeyErr → String
+  | .id => "err:id" | .alg => "err:alg" | .hash => "err:hash" | .panic => "panic"
+
 def handle : Handler
+  | "open", [msg, mode, vs] => do
+    let msg ← hx msg
+    let vs ← (splitList vs).mapM verifierSpec
+    let known ← knownOf mode (vs.map (·.1))
+    pure (showOpen (Open msg known))
+  | "sign", [text, sigs, unv, signers] => do
+    let text ← hx text
+    let sigs ← (splitList sigs).mapM sigSpec
+    let unv ← (splitList unv).mapM sigSpec
+    let signers ← (splitList signers).mapM signerSpec
+    pure (match Sign { text := text, sigs := sigs, unverifiedSigs := unv } signers with
+      | .ok m => xh m
+      | .error .malformed => "err:malformed"
+      | .error .invalidSigner => "err:invalidsigner"
+      | .error .signFailed => "err:signfailed")
+  | "isvalidname", [a] => do let a ← hx a; pure (showBool (isValidName a))
+  | "chop", [a, sep] => do
+    let a ← hx a; let sep ← hx sep
+    let (x, y) := chop a sep
+    pure s!"{xh x} {xh y}"
+  | "b64dec", [a] => do
+    let a ← hx a
+    pure (match B64.b64dec a with | some r => s!"ok {xh r}" | none => "err")
+  | "b64enc", [a] => do let a ← hx a; pure (xh (B64.b64enc a))
+  | "keyhash", [n, k] => do
+    let n ← hx n; let k ← hx k
+    pure (match keyHash Sha256.sha256 n k with | some h => toString h.toNat | none => "panic")
+  | "newverifier", [k] => do
+    let k ← hx k
+    pure (match NewVerifier Sha256.sha256 (fun _ _ _ => false) k with
+      | .ok v => s!"ok {xh v.name} {v.hash.toNat}"
+      | .error e => showKeyErr e)
+  | "newsigner", [k, pubHint] => do
+    let k ← hx k; let pubHint ← hx pubHint
+    pure (match NewSigner Sha256.sha256 (fun _ => pubHint) (fun _ _ => []) k with
+      | .ok s => s!"ok {xh s.name} {s.hash.toNat}"
+      | .error e => showKeyErr e)
+  | "verifierlist", [vs, name, hash] => do
+    let vs ← (splitList vs).mapM verifierSpec
+    let name ← hx name
+    let hash ← parseU32 hash
+    pure (match VerifierList (vs.map (·.1)) name hash with
+      | .found v => match vs.find? (fun p => p.1.name == v.name && p.1.hash == v.hash) with
+        | some p => s!"found {p.2}"
+        | none => "found ?"
+      | .unknown => "unknown"
+      | .ambiguous => "ambiguous"
+      | .otherErr => "err:other")
   | _, _ => none
 
 end ModVerif.Drv.Note
